@@ -912,13 +912,21 @@ def _shadowed_builtins(prog: Program, res: Result, fn: Func) -> None:
             if isinstance(x, ast.Name) and x.id not in seen:
                 seen.add(x.id)
                 todo.extend(d for _, d in assignments(fn, x.id) if d is not None)
+                # `names |= {...}` / names.update(..) enlarge the same set
+                for a_ in walk_own(fn.node):
+                    if isinstance(a_, ast.AugAssign) and isinstance(a_.op, ast.BitOr) and isinstance(a_.target, ast.Name) and a_.target.id == x.id:
+                        todo.append(a_.value)
+                    if isinstance(a_, ast.Call) and isinstance(a_.func, ast.Attribute) and a_.func.attr in ("update", "add") and isinstance(a_.func.value, ast.Name) \
+                            and a_.func.value.id == x.id:
+                        todo.extend(a_.args)
             if isinstance(x, ast.Call):
                 r = prog.resolve_call(x.func, fn.mod, fn)
                 if r and r[0] == "fn" and r[1].key not in seen:
                     seen.add(r[1].key)
                     text += " " + norm(r[1].node)
     kinds = {"function definitions": "FunctionDef" in text, "class definitions": "ClassDef" in text,
-             "assigned names": "Store" in text or "get_defined_names" in text, "imported names": "alias" in text or "Import" in text or "get_imported_names" in text}
+             "assigned names": "Store" in text or "get_defined_names" in text, "imported names": "alias" in text or "Import" in text or "get_imported_names" in text,
+             "parameters": "ast.arg" in text or "arguments" in text}
     if not removed:
         res.bad("R16.13", fn.loc(init[0]), fn.fq, "builtins redefined by the module",
                 f"the inferred set starts from {norm(v)} without removing the names the module itself binds: a user function called `format` or "
@@ -926,7 +934,7 @@ def _shadowed_builtins(prog: Program, res: Result, fn: Func) -> None:
         return
     missing = [k for k, ok in kinds.items() if not ok]
     res.decide(not missing, "R16.13", fn.loc(init[0]), fn.fq, "builtins redefined by the module",
-               "names bound by the module (functions, classes, assignments, imports) are removed from the initial set" if not missing else
+               "names bound by the module (functions, classes, assignments, imports, parameters) are removed from the initial set" if not missing else
                f"names bound through {missing} are not removed from the initial set of safe builtins")
 
 
@@ -983,6 +991,8 @@ def _positive(test: ast.AST) -> bool:
 from ..selftest import Variant  # noqa: E402
 
 VARIANTS: List[Variant] = [
+    Variant("parameters-not-counted-as-bound-names", "FIRE", "parsing",
+            "    # A parameter is whatever the caller passes, not the function or builtin of the same name\n    defined_names |= {node.arg for node in core.walk(root, ast.arg)}\n", "", "R16.13"),
     Variant("false-while-deleted-with-its-else", "FIRE", "fixes",
             "            if not node.orelse:  # The else clause of a loop that runs zero times does run\n                yield node, None, transaction\n", "            yield node, None, transaction\n", "R16.11"),
     Variant("dead-while-deleted-with-its-else", "FIRE", "fixes", "        if isinstance(node, ast.While) and not value and not node.orelse:", "        if isinstance(node, ast.While) and not value:", "R16.11"),
